@@ -2,8 +2,10 @@
 """seedtest.py <seed dir> <A|B> <property ids...>: verify a seeded change (demo passes clean / fails patched in a scratch
 worktree), then apply it to /repo, run the given quick checks, and undo it.  Prints a JSON summary."""
 import sys, subprocess, json, os, time, shutil
-seed, X = sys.argv[1], sys.argv[2]
-props = sys.argv[3:]
+scratch = "--scratch" in sys.argv
+argv = [a for a in sys.argv if a != "--scratch"]
+seed, X = argv[1], argv[2]
+props = argv[3:]
 patch = os.path.join(seed, X + '.patch')
 run = os.path.join(seed, X + '_run.sh')
 wt = '/tmp/wt_seedtest_%d' % os.getpid()
@@ -19,10 +21,19 @@ try:
     r1 = sh('bash %s %s' % (run, wt), timeout=900)
     res['demo_patched_exit'] = r1.returncode
     res['demo_patched_tail'] = (r1.stdout + r1.stderr)[-300:]
+    if scratch and res.get('demo_clean_exit') == 0 and res.get('applies') and res.get('demo_patched_exit') not in (0, None):
+        # run the checks against the patched scratch worktree (VERIF_REPO) instead of patching /repo itself
+        for p in props:
+            t0 = time.time()
+            r = sh('cd /verif && VERIF_REPO=%s ./vcheck %s --tier quick' % (wt, p), timeout=3600)
+            viol = [l for l in r.stdout.splitlines() if l.startswith('VIOLATION')]
+            res['checks'][p] = dict(exit=r.returncode, violations=len(viol), first=(viol[0] if viol else ''), wall=round(time.time() - t0),
+                                   detail=[l.strip()[:260] for l in r.stdout.splitlines() if l.startswith('  ')][:3],
+                                   notes=[l[:200] for l in r.stdout.splitlines() if l.startswith('HARNESS-NOTE')][:3], mode='scratch worktree via VERIF_REPO')
 finally:
     sh('git -C /repo worktree remove --force %s' % wt)
 res['confirmed'] = res.get('demo_clean_exit') == 0 and res.get('applies') and res.get('demo_patched_exit') not in (0, None)
-if res['confirmed'] and props:
+if res['confirmed'] and props and not scratch:
     st = sh('git -C /repo status --porcelain --untracked-files=no').stdout.strip()
     assert not st, 'repo not clean: ' + st
     a = sh('git -C /repo apply %s' % patch)
